@@ -1,3 +1,4 @@
+//go:build verif
 // +build verif
 
 package raft
@@ -439,14 +440,14 @@ func c20PrepareDir(dir string, id c20Ident, cfg Config, opt Options) error {
 }
 
 type c20Node struct {
-	id      c20Ident
-	tag     string
-	dir     string
-	fsm     *c20FSM
-	r       *Raft
-	lr      *c20Listener
-	serveCh chan error
-	stopped bool
+	id       c20Ident
+	tag      string
+	dir      string
+	fsm      *c20FSM
+	r        *Raft
+	lr       *c20Listener
+	serveCh  chan error
+	stopped  bool
 	serveErr error // what Serve returned (after stop)
 }
 
